@@ -186,9 +186,9 @@ pub fn run(cfg: &RunCfg) -> PropRun {
     run.rule = "ranges from Range::parse of AST-rendered texts (all grammar forms incl. <=1 / <=1.2 with their MAX_SAFE_INTEGER uppers, -0 uppers, exact, one/two-sided, multi-alternative) and from intersect/difference expression trees of depth <= 3 over the adjacent-version pool. Oracle: to_string() must re-parse; at ~40 probes per bound satisfies() and bounds membership (allows_any(=v)) are unchanged and agree with what the printed text says; ranges from parse compare == after the round trip; the second print is a fixed point; serde JSON is the quoted print and deserialises to the same range. Non-trivial = >=2 alternatives, or a two-sided interval, or a tagged bound; distinct by printed text.".into();
     run.assumptions = vec!["printed bounds with a component above MAX_SAFE_INTEGER are the listed finding D11 (excluded, counted)".into()];
     known_probe(&mut run);
-    let out = campaign(cfg, ID, "ast", cfg.pick(120_000, 2_000_000), ast_strategy, check_case);
+    let out = campaign(cfg, ID, "ast", cfg.pick(200_000, 2_500_000), ast_strategy, check_case);
     run.absorb(out);
-    let out = campaign(cfg, ID, "algebra", cfg.pick(120_000, 2_000_000), expr_strategy, check_case);
+    let out = campaign(cfg, ID, "algebra", cfg.pick(200_000, 2_500_000), expr_strategy, check_case);
     run.absorb(out);
     run.stats.excluded_known = run.stats.known_hits.get(F_D11).copied().unwrap_or(0);
     run
